@@ -273,7 +273,7 @@ func r10_9(c *Ctx, rule string) {
 	eng.InstrsShallow(lit, func(in ssa.Instruction) {
 		if d, ok := in.(*ssa.Defer); ok {
 			if mc, ok := d.Call.Value.(*ssa.MakeClosure); ok {
-				if f, ok := mc.Fn.(*ssa.Function); ok && pushesIn(f) {
+				if f := c.P.ClosureFn(mc); f != nil && pushesIn(f) {
 					if id := flagOf(f); id != "" {
 						for _, bnd := range mc.Bindings {
 							if c.P.CellID(bnd) == id {
@@ -290,7 +290,7 @@ func r10_9(c *Ctx, rule string) {
 		switch v := in.(type) {
 		case *ssa.Defer:
 			if mc, ok := v.Call.Value.(*ssa.MakeClosure); ok {
-				if f, ok := mc.Fn.(*ssa.Function); ok {
+				if f := c.P.ClosureFn(mc); f != nil {
 					return pushesIn(f) && flagOf(f) == ""
 				}
 			}
